@@ -78,7 +78,7 @@ PROPS = {
     ),
     "C05": dict(
         title="Fallible operations return errors: no panics, no out-of-range results",
-        verus=["posix", "tzif", "rounders", "sdur", "zoned", "span"],
+        verus=["posix", "tzif", "rounders", "sdur", "zoned", "span", "civiladd", "civildiff"],
         all_fns=True,
         kani_quick=["c01_civil", "c02_wrappers"],
         kani_thorough=[],
@@ -93,6 +93,19 @@ PROPS = {
         level_text="Narrow claim: the pointer-free kinds of the tagged-pointer representation (UTC, unknown, fixed offset): for every offset in -93599..=93599 s the encode/decode pair Repr::fixed / Repr::get_fixed is the identity (sign-extending shift included) and the tag bits identify the kind; tags are pairwise distinct. Arc-backed kinds (clone/drop/refcount), multi-threaded sharing and leak freedom are NOT decided by this check (DESIGN.md section 4, C20).",
         level_note="Trusted: the strict-provenance pair addr(without_provenance(a)) == a (pointer model in the prelude), i32::checked_shl spec, Verus/Z3 bit-vector reasoning; plus the global trusted base.",
     ),
+    "C08": dict(
+        title="Civil date/time arithmetic follows the documented calendar rules",
+        verus=["civiladd"],
+        kani_quick=[], kani_thorough=[],
+        design_ref="DESIGN.md section 4, C08",
+    ),
+    "C07": dict(
+        title="Differences are reversible, balanced and sign-consistent for every largest unit",
+        verus=["civildiff"],
+        kani_quick=[], kani_thorough=[],
+        design_ref="DESIGN.md section 4, C07",
+        level_text="Date differences (Date::until/since, DateDifference::since_with_largest_unit) for every pair of dates and every largest unit: the result equals an explicit specification diff_spec, is reversible w.r.t. the C08 addition semantics, sign-consistent, has no unit above the largest and is balanced; panic-free. DateTime/Time/Timestamp/Zoned differences are NOT decided by this check yet (Zoned::until has the open finding F7).",
+    ),
 }
 
 NOT_APPLICABLE = {
@@ -102,4 +115,4 @@ NOT_APPLICABLE = {
 
 # properties with a design but no committed check yet (kept current as the build proceeds)
 NOT_YET = {p: "check not built yet in this session (design in DESIGN.md section 4); not claimed" for p in
-           ["C07", "C08", "C09", "C11", "C16", "C17"]}
+           [ "C09", "C11", "C16", "C17"]}
